@@ -442,6 +442,103 @@ def item_c08_checks(repo, out):
         rows.append(('else', getters[0] if getters else 'raise'))
         break
     out.append('Definition c08_getter_selection : list (string * string) := %s.' % _coq_pairs(rows))
+    # the keyword arguments handed to the selected getter: getter_kwargs[<key>] = <expr>; the dict must start empty
+    # and nothing else may touch it before it is splatted into _ArrayLikeGetter
+    init_kw = [n for n in gda.body if isinstance(n, ast.Assign) and ast.unparse(n.targets[0]) == 'getter_kwargs']
+    if len(init_kw) != 1 or ast.unparse(init_kw[0].value) != '{}':
+        raise TranslateError('%s: get_dask_array: `getter_kwargs = {}` not found' % CS)
+    kws = []
+    for n in ast.walk(gda):
+        if isinstance(n, ast.Assign) and isinstance(n.targets[0], ast.Subscript) \
+                and ast.unparse(n.targets[0].value) == 'getter_kwargs':
+            key = n.targets[0].slice
+            if not (isinstance(key, ast.Constant) and isinstance(key.value, str)):
+                raise TranslateError('%s: get_dask_array: getter_kwargs key %s' % (CS, ast.unparse(key)))
+            kws.append((key.value, ast.unparse(n.value)))
+    uses = [n for n in ast.walk(gda) if isinstance(n, ast.Name) and n.id == 'getter_kwargs']
+    if len(uses) != len(kws) + 2:     # the initialisation, one per key, the ** splat
+        raise TranslateError('%s: get_dask_array: getter_kwargs is used in an unexpected way' % CS)
+    out.append('Definition c08_getter_kwargs : list (string * string) := %s.' % _coq_pairs(kws))
+    # get_chunk_or_placeholder(..., dryrun=False): `if not dryrun:` guards the read
+    gp = _func(_class(tree, 'ChunkStore', CS), 'get_chunk_or_placeholder', CS)
+    dflt = [ast.unparse(d) for d in gp.args.defaults]
+    first = [st for st in gp.body if not (isinstance(st, ast.Expr) and isinstance(st.value, ast.Constant))][0]
+    if not (gp.args.args[-1].arg == 'dryrun' and dflt[-1:] == ['False'] and isinstance(first, ast.If)
+            and ast.unparse(first.test) == 'not dryrun' and not first.orelse):
+        raise TranslateError('%s: get_chunk_or_placeholder: dryrun protocol not recognised' % CS)
+    out.append('Definition c08_placeholder_reads_unless : string := %s.' % coq_string('dryrun'))
 
 
-ITEMS = [item_c08_error_maps, item_c08_classes, item_c08_absorb, item_c08_npy_protocol, item_c08_checks]
+def _flatten(stmts, depth, out, what):
+    """Statements -> one line per simple statement / compound-statement header, indented by nesting depth.
+    Only for / if / else / plain statements are accepted (anything else: fail closed)."""
+    for st in stmts:
+        pad = '  ' * depth
+        if isinstance(st, ast.For):
+            if st.orelse:
+                raise TranslateError('%s: for/else' % what)
+            out.append('%sfor %s in %s:' % (pad, ast.unparse(st.target), ast.unparse(st.iter)))
+            _flatten(st.body, depth + 1, out, what)
+        elif isinstance(st, ast.If):
+            out.append('%sif %s:' % (pad, ast.unparse(st.test)))
+            _flatten(st.body, depth + 1, out, what)
+            if st.orelse:
+                out.append('%selse:' % pad)
+                _flatten(st.orelse, depth + 1, out, what)
+        elif isinstance(st, (ast.Assign, ast.AugAssign, ast.Expr, ast.Continue, ast.Return)):
+            if isinstance(st, ast.Expr) and isinstance(st.value, ast.Constant) and isinstance(st.value.value, str):
+                continue      # docstring
+            line = ast.unparse(st)
+            if '\n' in line:
+                raise TranslateError('%s: multi-line statement %r' % (what, line[:60]))
+            out.append(pad + line)
+        else:
+            raise TranslateError('%s: unexpected %s statement' % (what, type(st).__name__))
+
+
+def item_c08_lostmap(repo, out):
+    """How ChunkStoreVisFlagsWeights.__init__ decides WHERE data_lost is set for a missing chunk of another array:
+    the statements from `lost_map = ...` to the `dsk = {...}` that wires _apply_data_lost into the flags graph, the
+    zero-fill loop that follows, and the bodies of _apply_data_lost / _default_zero, as normalised source lines.
+    The model (Model/VfwDamage.v) compares them with the lines it was written against."""
+    tree = _parse(repo, VFW)
+    init = _func(_class(tree, 'ChunkStoreVisFlagsWeights', VFW), '__init__', VFW)
+    body = init.body
+
+    def is_assign_to(st, name):
+        return (isinstance(st, ast.Assign) and len(st.targets) == 1 and isinstance(st.targets[0], ast.Name)
+                and st.targets[0].id == name)
+
+    starts = [i for i, st in enumerate(body) if is_assign_to(st, 'lost_map')]
+    if len(starts) != 1:
+        raise TranslateError('%s: expected exactly one top-level `lost_map = ...` in __init__' % VFW)
+    dsks = [i for i, st in enumerate(body) if is_assign_to(st, 'dsk') and i > starts[0]]
+    if not dsks:
+        raise TranslateError('%s: `dsk = ...` after the lost map not found' % VFW)
+    # every use of lost_map must be inside the translated region
+    region = body[starts[0]:dsks[0] + 1]
+    inside = sum(1 for st in region for n in ast.walk(st) if isinstance(n, ast.Name) and n.id == 'lost_map')
+    total = sum(1 for n in ast.walk(init) if isinstance(n, ast.Name) and n.id == 'lost_map')
+    if inside != total:
+        raise TranslateError('%s: lost_map is used outside the lost-map section of __init__' % VFW)
+    lines = []
+    _flatten(region, 0, lines, VFW + ':lost_map')
+    out.append('Definition c08_lostmap_src : list string :=\n  [%s].' % ';\n   '.join(coq_string(x) for x in lines))
+    # the zero-fill loop: the next `for array_name, array in darray.items()` after the flags array is replaced
+    fills = [st for st in body[dsks[0] + 1:] if isinstance(st, ast.For)
+             and ast.unparse(st.iter) == 'darray.items()']
+    if len(fills) != 1:
+        raise TranslateError('%s: expected exactly one zero-fill loop over darray.items()' % VFW)
+    lines = []
+    _flatten([fills[0]], 0, lines, VFW + ':fill')
+    out.append('Definition c08_fill_src : list string :=\n  [%s].' % ';\n   '.join(coq_string(x) for x in lines))
+    for fn in ('_apply_data_lost', '_default_zero'):
+        found = [n for n in tree.body if isinstance(n, ast.FunctionDef) and n.name == fn]
+        if len(found) != 1:
+            raise TranslateError('%s: function %s not found' % (VFW, fn))
+        lines = ['def %s(%s):' % (fn, ast.unparse(found[0].args))]
+        _flatten(found[0].body, 1, lines, VFW + ':' + fn)
+        out.append('Definition c08%s_src : list string :=\n  [%s].' % (fn, ';\n   '.join(coq_string(x) for x in lines)))
+
+
+ITEMS = [item_c08_error_maps, item_c08_classes, item_c08_absorb, item_c08_npy_protocol, item_c08_checks, item_c08_lostmap]
